@@ -160,6 +160,10 @@ func (h *Hook) OnSessionEstablished(cl *mqtt.Client, pk packets.Packet) {
 
 // OnWillSent is called when a client sends a Will Message and the Will Message is removed from the client record.
 func (h *Hook) OnWillSent(cl *mqtt.Client, pk packets.Packet) {
+	if cl.StopCause() == packets.ErrSessionTakenOver {
+		return // the stored record belongs to the connection that took the session over
+	}
+
 	h.updateClient(cl)
 }
 
@@ -208,13 +212,13 @@ func (h *Hook) OnDisconnect(cl *mqtt.Client, _ error, expire bool) {
 		return
 	}
 
+	if cl.StopCause() == packets.ErrSessionTakenOver {
+		return // the stored record belongs to the connection that took the session over
+	}
+
 	h.updateClient(cl)
 
 	if !expire {
-		return
-	}
-
-	if cl.StopCause() == packets.ErrSessionTakenOver {
 		return
 	}
 
